@@ -122,6 +122,15 @@ def run_property(prop, tier, repo_root, seed, open_findings):
             obligations.extend(('regex:linebreak', ob) for ob in facts)
         except Exception as e:
             undecided.append({'name': 'regex:linebreak', 'reason': str(e)})
+    if 'models' in u.get('regex', []):
+        from . import lexfacts
+        try:
+            facts = lexfacts.model_facts(eng.repo)
+            functions.append({'name': 'penman.models.*: role tables of the shipped models (regex facts)', 'tier': 'P',
+                              'obligations': len(facts)})
+            obligations.extend(('regex:models', ob) for ob in facts)
+        except Exception as e:
+            undecided.append({'name': 'regex:models', 'reason': str(e)})
     if 'json' in u.get('regex', []):
         from . import lexfacts
         try:
